@@ -70,9 +70,13 @@ def run(tier, seed):
     # scenario itself: "a malformed frame yields an error for that frame only" also after thousands of them
     def valid_frames(s):
         return sum(1 for r_ in s["results"] if r_["k"] != "err")
+    def has_frag(x):
+        return any(k[0].startswith("frag") or k[0] == "junk_fraghdr" for k in x["hist"])
     for src, n in ((hdr + cache, 2), (pt, 1)):
-        for s in sorted([x for x in src if not any(k[0].startswith("frag") or k[0] == "junk_fraghdr" for k in x["hist"])], key=valid_frames, reverse=True)[:n]:
-            scen.append({**s, "cut": 0, "via_read_half": False, "soak": 120 if thorough else 25})
+        # malformed frames cut out of fragment frames as well (from a scenario whose sequences this one does not use)
+        donors = [x for x in src if has_frag(x)]
+        for s in sorted([x for x in src if not has_frag(x)], key=valid_frames, reverse=True)[:n]:
+            scen.append({**s, "cut": 0, "via_read_half": False, "soak": 120 if thorough else 25, "junk_from": donors[0]["frames"] if donors else []})
     for s in sorted(pt, key=valid_frames, reverse=True)[:1]:
         scen.append({**s, "cut": 0, "via_read_half": True, "soak": 25})
     for i, s in enumerate(scen):
